@@ -228,7 +228,14 @@ FailingRepr(c, o) ==
 \*    to agree bit for bit before anything is compared).  The harness records per step how the
 \*    result relates to the fresh object's: "same" (bit-identical, or the same exception class),
 \*    "close" (different bits, within 1e-9 degree / 1e-6 pixel), "diff".
-CallNames == {"i2s_d", "i2s_n", "s2i_dr", "s2i_dp", "s2i_np", "s2i_nr", "jac"}
+CallNames == {"i2s_d", "i2s_n", "s2i_dr", "s2i_dp", "s2i_np", "s2i_nr", "jac",
+              "s2i_dr_xl", "s2i_dr_xt", "jac_h", "jac_n", "s2i_fail"}
+\* the documented OPTIONS of the calls are part of the call name:
+\*   s2i_dr_xl / s2i_dr_xt : sky2image(s, find=True, xtol = 1e-3 (loose) / 1e-11 (tight));  s2i_dr uses the default xtol
+\*   jac_h : get_jacobian(p, step=0.5)       jac_n : get_jacobian(p, distort=False)
+\*   s2i_fail : a call that is REJECTED half-way (sky2image on arrays of unequal length: the first element is
+\*              processed, the second raises).  A rejected call is a stutter step of the property-level state: F of
+\*              every later call is unchanged.
 \*   i2s_d / i2s_n : image2sky(p, distort=True / False)          jac : get_jacobian(p)
 \*   s2i_dr : sky2image(s, distort=True,  find=True)   (root finder)
 \*   s2i_dp : sky2image(s, distort=True,  find=False)  (fitted inverse polynomial, computed lazily)
@@ -240,6 +247,18 @@ FailingHistory(c, o) ==
     IF Len(o.steps) # Len(c.calls) \/ \E k \in DOMAIN c.calls : o.steps[k].call # c.calls[k] THEN {"trace_mismatch"}
     ELSE IF \A k \in DOMAIN o.steps : StepAllowed(o.steps[k]) THEN {} ELSE {"result_depends_on_history"}
 
+\* histories over SEVERAL objects alive in one process (the "world": the objects plus whatever the module keeps
+\* between calls).  c = [hk, rels, calls : Seq([o, call])]: object 1 is built from the base header, object k + 1 from
+\* the header related to it by rels[k] ("same": identical; "cutout": same coefficients, CRPIX shifted and NAXIS
+\* 128 x 128; "cd": CD scaled and rotated; "crval": another reference point).  The property: every result equals
+\* that call on a fresh object in a fresh process - F does not depend on the world either.
+WorldRels == {"same", "cutout", "cd", "crval"}
+FailingWorld(c, o) ==
+    IF Len(o.steps) # Len(c.calls) \/ (\E k \in DOMAIN c.calls : o.steps[k].call # c.calls[k].call \/ o.steps[k].o # c.calls[k].o)
+       \/ (\E k \in DOMAIN c.rels : c.rels[k] \notin WorldRels) \/ (\E k \in DOMAIN c.calls : c.calls[k].o \notin 1..(Len(c.rels) + 1))
+    THEN {"trace_mismatch"}
+    ELSE IF \A k \in DOMAIN o.steps : StepAllowed(o.steps[k]) THEN {} ELSE {"result_depends_on_other_objects"}
+
 Failing(r) ==
     CASE r.kind = "class"     -> FailingClass(r.c, r.o)
       [] r.kind = "refpix"    -> FailingRefPix(r.c, r.o)
@@ -248,5 +267,6 @@ Failing(r) ==
       [] r.kind = "scalar"    -> FailingScalarArray(r.c, r.o)
       [] r.kind = "history"   -> FailingHistory(r.c, r.o)
       [] r.kind = "repr"      -> FailingRepr(r.c, r.o)
+      [] r.kind = "world"     -> FailingWorld(r.c, r.o)
       [] OTHER                -> {"unknown_record_kind"}
 =============================================================================
